@@ -88,12 +88,15 @@ class DataSchemaBuilder:
     def set_comment(self, comment: str) -> None:
         self._doc = comment
 
-    def add_field(self, field: _serializable.Field) -> None:
+    def ensure_field_can_be_added(self) -> None:
         if self.union and self._bit_length_computed_at_least_once:
             # Refer to the DSDL specification for the background information.
             raise BitLengthAnalysisError(
                 "Inter-field offset is not defined for unions; " "previously performed bit length analysis is invalid"
             )
+
+    def add_field(self, field: _serializable.Field) -> None:
+        self.ensure_field_can_be_added()
         assert isinstance(field, _serializable.Field)
         self._fields.append(field)
 
